@@ -1,10 +1,149 @@
-import NfcVerif.Model.DlcLlc
+import NfcVerif.Lemmas.DlcProgress
+/-!
+# C05 - LLCP connections deliver in order, exactly once, within the window
+
+Statements only; proofs are in `Lemmas/Dlc.lean` (invariant `Dir` of one direction of
+data flow, preserved by every atomic step) and `Lemmas/DlcLlc.lean`.
+
+Model: `Model/Dlc.lean` - two endpoints with the state of `DataLinkConnection`
+(`tco.py`), two FIFO wires, one step per critical section of the source; `run s ops`
+executes any finite sequence `ops : List (Side × Op)` of steps of both sides, i.e.
+every interleaving of application calls (`send recv busy poll close closeFin`) with
+link activity (`deq ack dlv`).  `init c` is the state after a CONNECT/CC handshake
+with parameters `c`; `c.ok` says RW is in 1..15 on both sides and each side sends
+with the window and at most the MIU the other side announced.  MIU values are
+arbitrary naturals.  `Model/DlcLlc.lean` composes the steps into `collect()`
+(with and without aggregation) and `dispatch()`.
+
+The theorems quantify over all step sequences; what they cannot exhibit is a
+preemption *inside* one critical section (atomicity of a step rests on the
+`with self.lock` regions of `tco.py`).
+-/
 namespace NfcVerif.C05
 open NfcVerif NfcVerif.Dlc
 
-/-- `send` of a message longer than the connection MIU is refused with EMSGSIZE and changes nothing. -/
-theorem dlc_emsgsize (e : Ep) (m : Bytes) (hst : e.st = .established) (h : m.length > e.sendMiu) :
-    e.send m = (e, .exc (.llcp 90)) := by
-  simp [Ep.send, hst, h]
+/-- In order, exactly once, nothing invented - always, also after `close`, DISC, DM:
+what the application of one side has received is a prefix of what the application
+of the other side had accepted by `send`; both directions. -/
+theorem dlc_prefix (c : Cfg) (hc : c.ok) (ops : List (Side × Op)) :
+    (run (init c) ops).b.delivered <+: (run (init c) ops).a.accepted ∧
+    (run (init c) ops).a.delivered <+: (run (init c) ops).b.accepted := by
+  have h := reach_inv c hc ops
+  obtain ⟨t1, c1, _⟩ := h.1.cons
+  obtain ⟨t2, c2, _⟩ := h.2.cons
+  constructor
+  · rw [c1, List.append_assoc, List.append_assoc]; exact List.prefix_append _ _
+  · rw [c2, List.append_assoc, List.append_assoc]; exact List.prefix_append _ _
+
+/-- Nothing is lost while both ends are established: every accepted message is either
+delivered, or waits in the peer's receive queue, or is on the wire, or is still in the
+send queue - in this order; both directions. (`close()` discards the part that is
+not yet delivered; by `dlc_prefix` nothing else.) -/
+theorem dlc_conservation (c : Cfg) (hc : c.ok) (ops : List (Side × Op))
+    (ha : (run (init c) ops).a.st = .established) (hb : (run (init c) ops).b.st = .established) :
+    (run (init c) ops).a.accepted =
+      (run (init c) ops).b.delivered ++ rqMsgs (run (init c) ops).b.rq ++
+      (iPart (run (init c) ops).wab).map Prod.snd ++ (sqI (run (init c) ops).a.sq).map Prod.snd ∧
+    (run (init c) ops).b.accepted =
+      (run (init c) ops).a.delivered ++ rqMsgs (run (init c) ops).a.rq ++
+      (iPart (run (init c) ops).wba).map Prod.snd ++ (sqI (run (init c) ops).b.sq).map Prod.snd := by
+  have h := reach_inv c hc ops
+  obtain ⟨t1, c1, d1⟩ := h.1.cons
+  obtain ⟨t2, c2, d2⟩ := h.2.cons
+  rw [if_pos hb] at c1
+  rw [if_pos ha] at c2
+  rw [d1 ha hb] at c1
+  rw [d2 hb ha] at c2
+  exact ⟨c1, c2⟩
+
+/-- Window: `(V(S) - V(SA)) mod 16` is exactly the number of messages accepted and not yet
+acknowledged, it never exceeds the receive window the peer announced, and the number of
+messages accepted but not yet received by the peer *application* never exceeds it either. -/
+theorem dlc_window (c : Cfg) (hc : c.ok) (ops : List (Side × Op)) :
+    let s := run (init c) ops
+    (((s.a.vs : Int) - s.a.vsa) % 16).toNat + s.a.gSA = s.a.accepted.length ∧
+    ((s.a.vs : Int) - s.a.vsa) % 16 ≤ s.b.recvWin ∧
+    s.a.accepted.length ≤ s.b.delivered.length + s.b.recvWin ∧
+    (((s.b.vs : Int) - s.b.vsa) % 16).toNat + s.b.gSA = s.b.accepted.length ∧
+    ((s.b.vs : Int) - s.b.vsa) % 16 ≤ s.a.recvWin ∧
+    s.b.accepted.length ≤ s.a.delivered.length + s.a.recvWin := by
+  intro s
+  have h : Inv s := reach_inv c hc ops
+  have hl : EpLen s.a ∧ EpLen s.b := reach_len c ops
+  obtain ⟨w1, v1, va1, _, _, o1, _, _, _, _, _, _, _, _, f1⟩ := h.1
+  obtain ⟨w2, v2, va2, _, _, o2, _, _, _, _, _, _, _, _, f2⟩ := h.2
+  have la := hl.1.1
+  have lb := hl.2.1
+  have ra := hl.1.2 f2.2.2
+  have rb := hl.2.2 f1.2.2
+  rw [v1, va1, v2, va2]
+  refine ⟨by omega, by omega, by omega, by omega, by omega, by omega⟩
+
+/-- Sequence numbers stay consistent through the modulo-16 wrap: between two correct
+endpoints no FRMR is ever generated, no I PDU is discarded for lack of queue space and
+`recv()` never sees more unconfirmed messages than the window; the I PDU at the head of a
+wire has `N(S) = V(R)`, fits the receiver's MIU and finds room in the receive queue. -/
+theorem dlc_seq_consistent (c : Cfg) (hc : c.ok) (ops : List (Side × Op)) :
+    let s := run (init c) ops
+    (s.a.gFrmr = false ∧ s.a.gDiscard = false ∧ s.a.gOverrun = false) ∧
+    (s.b.gFrmr = false ∧ s.b.gDiscard = false ∧ s.b.gOverrun = false) ∧
+    (∀ ns nr d rest, s.wab = .i ns nr d :: rest → s.b.st = .established →
+       ns = s.b.vr ∧ d.length ≤ s.b.recvMiu ∧ s.b.rq.length < s.b.recvWin) ∧
+    (∀ ns nr d rest, s.wba = .i ns nr d :: rest → s.a.st = .established →
+       ns = s.a.vr ∧ d.length ≤ s.a.recvMiu ∧ s.a.rq.length < s.a.recvWin) := by
+  intro s
+  have h : Inv s := reach_inv c hc ops
+  refine ⟨h.2.flags, h.1.flags, ?_, ?_⟩
+  · intro ns nr d rest hw hst
+    obtain ⟨h1, h2, h3, _⟩ := h.1.enqI (wF' := rest) ns d hst (by rw [hw]; rfl)
+    exact ⟨h2, h1, h3⟩
+  · intro ns nr d rest hw hst
+    obtain ⟨h1, h2, h3, _⟩ := h.2.enqI (wF' := rest) ns d hst (by rw [hw]; rfl)
+    exact ⟨h2, h1, h3⟩
+
+/-- `send` of a message longer than the connection MIU is refused with EMSGSIZE (errno 90)
+and changes nothing - in every state of an established endpoint, on either side. -/
+theorem dlc_emsgsize (s : Sys) (m : Bytes) :
+    (s.a.st = .established → m.length > s.a.sendMiu → step s .A (.send m) = (s, .exc (.llcp 90))) ∧
+    (s.b.st = .established → m.length > s.b.sendMiu → step s .B (.send m) = (s, .exc (.llcp 90))) := by
+  constructor
+  · intro hst h
+    simp [step, stepA, Ep.send, hst, h]
+  · intro hst h
+    simp [step, stepA, Ep.send, Sys.swap, hst, h]
+
+/-- Frame boundaries do not matter: the state after `collect()` (any link MIU, aggregation on or
+off) and after `dispatch()` of a frame is reached by atomic steps, hence satisfies everything above. -/
+theorem dlc_collect_covered (s : Sys) (x : Side) (link : Nat) (agf : Bool) (fuel n : Nat) :
+    (∃ ops, (collect s x link agf fuel).1 = run s ops) ∧
+    deliverN s x n = run s (List.replicate n (x, .dlv)) :=
+  ⟨collect_is_run s x link agf fuel, deliverN_is_run s x n⟩
+
+/-- Progress (no stuck state): while both ends are established and some accepted message has
+not yet been delivered - in either direction - some step other than `send` is enabled, i.e.
+changes the state: `recv` at the peer, delivery of the PDU at the head of a wire, or `dequeue`
+of the head of the send queue.  (Safety-style progress only: no fairness or termination claim.) -/
+theorem dlc_no_stuck (c : Cfg) (hc : c.ok) (ops : List (Side × Op))
+    (ha : (run (init c) ops).a.st = .established) (hb : (run (init c) ops).b.st = .established)
+    (hne : (run (init c) ops).a.accepted ≠ (run (init c) ops).b.delivered ∨
+           (run (init c) ops).b.accepted ≠ (run (init c) ops).a.delivered) :
+    ∃ x op, (∀ m, op ≠ .send m) ∧ (step (run (init c) ops) x op).1 ≠ run (init c) ops := by
+  rcases hne with hne | hne
+  · exact no_stuck_ab _ (reach_inv c hc ops) ha hb hne
+  · exact no_stuck_ba _ (reach_inv c hc ops) ha hb hne
+
+/-! Non-vacuity: concrete histories. -/
+def cfg23 : Cfg := ⟨128, 128, 3, 2, 128, 128, 2, 3⟩
+example : cfg23.ok := by decide
+/-- two messages A->B, delivered in order; the second `send` beyond the window (RW(B)=3, here the
+fourth message) is refused with EWOULDBLOCK -/
+example : (run (init cfg23) [(.A, .send [1]), (.A, .send [2]), (.A, .deq 128), (.A, .deq 128), (.B, .dlv), (.B, .dlv),
+    (.B, .recv), (.B, .recv)]).b.delivered = [[1], [2]] := by decide
+example : (step (run (init cfg23) [(.A, .send [1]), (.A, .send [2]), (.A, .send [3])]) .A (.send [4])).2
+    = .exc (.llcp 11) := by decide
+/-- a history with `close` on one side: the unsent message is discarded, DISC goes out, DM comes back -/
+example : let s := run (init cfg23) [(.A, .send [1]), (.A, .close), (.A, .deq 128), (.B, .dlv), (.B, .deq 128), (.A, .dlv), (.A, .closeFin)]
+    s.a.st = .shutdown ∧ s.b.st = .closeWait ∧ s.a.accepted = [[1]] ∧ s.b.delivered = [] := by decide
+example : (step (init ⟨3, 3, 3, 2, 3, 3, 2, 3⟩) .A (.send [1, 2, 3, 4])).2 = .exc (.llcp 90) := by decide
 
 end NfcVerif.C05
